@@ -214,6 +214,13 @@ pub fn make_case(prop: &str, seed: u64) -> Case {
             case.knobs.default_max_topic_size = if rng.chance(0.3) { seg * 2 } else { 0 };
             case.gen.topic_max_size = vec![MaxSize::Bytes(seg), MaxSize::Bytes(seg * 2), MaxSize::Bytes(seg * 5), MaxSize::Unlimited, MaxSize::ServerDefault, MaxSize::Bytes(seg / 2), MaxSize::Bytes(seg - 1)];
             case.gen.payload_lens = vec![10, 50, 100, 200, 300];
+            // the limit is compared with a size figure: that figure must be what is stored, also when the
+            // stored bytes are ciphertext (28 bytes longer per message than what was sent)
+            if rng.chance(0.25) {
+                use base64::Engine;
+                case.knobs.encryption = true;
+                case.knobs.encryption_key = base64::engine::general_purpose::STANDARD.encode(rng.bytes(32));
+            }
             let mut mix = Mix { send: 50, poll: 5, flush: 3, job_save: 3, job_maintain: 10, restart_clean: 2, purge: 1, tick: 4, update_topic: 6, audit: 4, get_topic: 4, catalogue: 3, ..Default::default() };
             perturb(&mut rng, &mut mix);
             mix.send = mix.send.max(20);
